@@ -330,7 +330,7 @@ def run(ctx, res):
 def nack_rows(res, F, D, S):
     """word k of the FCI is item k of the word generator; each word is BE16 PID, BE16 BLP"""
     n = 0
-    enc = [d for d in F.bodies if d.endswith("nack::encode_entry")]
+    enc = D.by_signature(["u16", "u16"], "[u8; 4]", "feedback::nack::")
     res.ob(len(enc) == 1, "anchor", "nack::encode_entry", "the NACK word encoder exists")
     if enc:
         I = Interp(F)
